@@ -141,6 +141,7 @@ def check(prog: Program, res: Result) -> None:
     res.borrow(c07.check_valid, "C02-refine", prog)
     res.borrow(c06.check_refine, "C02-refine", prog)
     res.borrow(c12.check_align, "C02-frame", prog)
+    res.borrow(c12.check_no_batch_wide_guard, "C02-frame", prog)   # every frame is corrected by its OWN eff_scale
     # premises of the units analysis: the library contracts it uses for apply_sizematcher / crop_bboxes hold (C04)
     from . import c04
     res.borrow(c04.check_contract_premises, "C02-leaf", prog)
